@@ -439,7 +439,7 @@ func (w *wbuild) handler(inv *simexec.Invocation) (int, error) {
 	alive := inv.Sleep(dur / 2)
 	if alive {
 		dg := RunDigest(s, view)
-		writeListing(ws, s, OutputListing(s, dg), s.Fail == "omit" || extFail == "omit")
+		writeListing(ws, s, OutputListing(s, dg, view), s.Fail == "omit" || extFail == "omit")
 		if s.Breaks || extFail == "break" {
 			w.mu.Lock()
 			for _, c := range s.Checks {
